@@ -13,6 +13,7 @@ package evmsync
 
 import (
 	"context"
+	"database/sql"
 	"flag"
 	"fmt"
 	"os"
@@ -22,6 +23,8 @@ import (
 	"time"
 
 	"github.com/agglayer/aggkit/sync"
+	"github.com/ethereum/go-ethereum/common"
+	_ "github.com/mattn/go-sqlite3"
 
 	"verifharness/tr"
 )
@@ -57,6 +60,10 @@ type run struct {
 	drifts int
 	stuck  string
 	fatal  string
+	// the detector stamps a detected reorg with the wall-clock second (primary key of reorg_event together with
+	// subscriber and range): a second detection of the same range within the same second fails and is retried on the
+	// next tick. The replay keeps two detections of one behaviour in different seconds.
+	lastDetect int64
 }
 
 // Run is the driver's entry point: -in behaviours.json -out trace.ndjson
@@ -281,8 +288,9 @@ func (r *run) restart() error {
 // doStep performs one step of the behaviour; a non-empty answer says where the node was instead (DRIFT)
 func (r *run) doStep(s step) (string, error) {
 	gate := func(who, prefix string) string {
-		w := r.e.find(who)
 		want := r.norm(prefix)
+		r.e.await(func() bool { return r.e.find(who) != nil }, gateWait) // hand-written schedules carry no "at"
+		w := r.e.find(who)
 		if w == nil || !(w.key == want || strings.HasPrefix(w.key, want+":")) {
 			return "not at " + prefix + ": " + r.where()
 		}
@@ -305,10 +313,15 @@ func (r *run) doStep(s step) (string, error) {
 		got = gate("dl", "logs")
 	case "dlhdr":
 		got = gate("dl", "hdr")
-	case "rdtick":
-		got = gate("rd", "fin")
-	case "rdcmp":
-		got = gate("rd", "hdr")
+	case "rdtick", "rdcmp":
+		if len(s.At) == 3 && strings.HasPrefix(s.At[2], "notify") {
+			r.spaceDetections()
+		}
+		if s.A == "rdtick" {
+			got = gate("rd", "fin")
+		} else {
+			got = gate("rd", "hdr")
+		}
 	case "track":
 		got = gate("drv", "track")
 	case "process":
@@ -333,6 +346,40 @@ func (r *run) doStep(s step) (string, error) {
 		return "after " + s.A + ": " + r.where(), nil
 	}
 	return "", nil
+}
+
+func (r *run) spaceDetections() {
+	now := time.Now()
+	if now.Unix() == r.lastDetect {
+		time.Sleep(time.Until(time.Unix(now.Unix()+1, 0)) + 5*time.Millisecond)
+	}
+	r.lastDetect = time.Now().Unix()
+}
+
+// staleTracked reads the detector's own table: is a block tracked whose hash is not the canonical one? (an observation
+// that decides whether the node is at rest, never a verdict)
+func (r *run) staleTracked() bool {
+	db, err := sql.Open("sqlite3", fmt.Sprintf("file:%s?mode=ro&_journal_mode=WAL", r.cfg.rdPath))
+	if err != nil {
+		return false
+	}
+	defer db.Close()
+	rows, err := db.Query(`SELECT num, hash FROM tracked_block WHERE subscriber_id = ?`, syncerID)
+	if err != nil {
+		return false
+	}
+	defer rows.Close()
+	for rows.Next() {
+		var n uint64
+		var h string
+		if rows.Scan(&n, &h) != nil {
+			return false
+		}
+		if r.c.name(n, common.HexToHash(h)) != r.c.canonVersion(n) {
+			return true
+		}
+	}
+	return false
 }
 
 // deliver hands the next downloaded block to the driver's select
@@ -374,6 +421,7 @@ func (r *run) quiesce() bool {
 	reset := func() { dlPolls, rdTicks, inTick = 0, 0, false }
 	gens := r.n.genCount()
 	lastDrv, sameDrv := "", 0
+	var staleSince time.Time
 	for it := 0; it < 5000; it++ {
 		if r.n.genCount() != gens {
 			gens = r.n.genCount()
@@ -412,6 +460,8 @@ func (r *run) quiesce() bool {
 			}
 			reset()
 			inTick = false
+			staleSince = time.Time{}
+			r.lastDetect = time.Now().Unix()
 			continue
 		}
 		if g != nil && len(g.chA) > 0 {
@@ -466,6 +516,18 @@ func (r *run) quiesce() bool {
 		dlRest := (r.e.find("dl") != nil && dlPolls >= 3) || g == nil || g.isExited()
 		rdRest := r.e.find("rd") != nil && rdTicks >= 2
 		if dlRest && rdRest && r.e.find("drv") == nil && (g == nil || len(g.chA) == 0) {
+			// a tracked block that is not canonical must lead to a notification; a detection that collides with an earlier
+			// one of the same second is retried by the detector on a later tick: give it that second
+			if r.staleTracked() {
+				if staleSince.IsZero() {
+					staleSince = time.Now()
+				}
+				if time.Since(staleSince) < 1500*time.Millisecond {
+					time.Sleep(20 * time.Millisecond)
+					rdTicks, inTick = 0, false
+					continue
+				}
+			}
 			return true
 		}
 		// somebody is on the way to a gate: wait for the arrival
